@@ -117,7 +117,8 @@ def run(ck):
     ck.require_passed("A1.xff-resumes", fl, ev_exit(), "resumed", "exit", why="(the http_access check would be skipped after follow_x_forwarded_for)")
     wrap = facts.fn("clientAccessCheckDoneWrapper")
     for s in ck.sites(ck.flow(wrap), done, "clientAccessCheckDone()", 1):
-        if E.m_is_ref("answer")(E.strip(s.ev["x"])["a"][0]) and not [e for b in wrap.blocks.values() for e in b["ev"] if ev_assign("answer", ops=None)(e)]:
+        ans = wrap.params[0]["d"] if wrap.params else "?"
+        if E.m_is_ref(ans)(E.strip(s.ev["x"])["a"][0]) and not [e for b in wrap.blocks.values() for e in b["ev"] if ev_assign(ans, ops=None)(e)]:
             ck.ok("A1.wrapper", s.where(), "the wrapper passes the checklist answer unchanged")
         else:
             ck.violation("A1.wrapper", "A1|wrapper|answer", s.where(), "clientAccessCheckDoneWrapper does not pass its answer parameter through unchanged")
